@@ -39,7 +39,12 @@ type writeOpts struct {
 	mode   string
 	inject bool // inject out-of-order / duplicate keys
 	prefix string
+	// history: what already lies at the table's path when the builder is created ("" = nothing):
+	// a longer complete table, a longer abandoned build, longer raw bytes, or raw bytes a few bytes longer
+	history string
 }
+
+var pathHistories = []string{"complete", "abandoned", "partial", "slightly-longer"}
 
 type writeStats struct {
 	adds, streams, chunks, injectedAdd, injectedStream, doubleCommits int
